@@ -209,8 +209,11 @@ def run_c_program(outs, *, sizes_list=(None,), on_node=None, valuations=None,
     try:
         ck = bp.compiled()
     except Exception as e:  # noqa: BLE001
+        sig = exc_sig("loopy-codegen/gcc", e)
+        if sig["where"].startswith("cexec.py"):
+            sig = attribute_exception(sig, outs)
         return {"outcome": "loopy-exception", "bp": bp,
-                "violations": [{"sig": exc_sig("loopy-codegen/gcc", e), "msg": exc_msg("loopy-codegen/gcc", e, outs)}]}
+                "violations": [{"sig": sig, "msg": exc_msg("loopy-codegen/gcc", e, outs)}]}
     k = bp.kernel
     # declared shape/dtype of kernel arguments
     results_all = []
@@ -318,6 +321,32 @@ def operand_descr_dtype(o):
         return T.np_shape_dtype(o)[1].name
     except Exception:  # noqa: BLE001
         return "?"
+
+
+def dtype_deviation(term):
+    """first sub-term (post-order) whose dtype pytato infers differently from NumPy (a C03
+    matter); None if there is none"""
+    for o in T.all_subterms(term):
+        if T.is_scalar_term(o) or o[0] in ("ph", "dw", "dwv", "dwalias", "s", "a"):
+            continue
+        try:
+            ptdt = np.dtype(T.PtBuilder()(o).dtype)
+            npdt = T.np_shape_dtype(o)[1]
+        except Exception:  # noqa: BLE001
+            continue
+        if ptdt != npdt:
+            return {"operand": _root_sig(o), "numpy": npdt.kind, "pytato": ptdt.kind}
+    return None
+
+
+def attribute_exception(sig, outs):
+    """an exception in a program that contains a dtype-deviating sub-term is attributed to
+    that deviation (e.g. xor of two pt.all(float) results, which pytato types float64)"""
+    for _, t in outs:
+        d = dtype_deviation(t)
+        if d is not None and T.tkey(t) != "":
+            return {"kind": "exception", "cause": "operand-dtype-deviates-from-numpy", **d}
+    return sig
 
 
 def blame_wrong_value(term, runner_fn):
